@@ -99,8 +99,11 @@ def snapshot(it, v):
         out.append((id(v), len(v.items)))
         for x in v.items:
             out += snapshot(it, x)
-    elif isinstance(v, Inst) and v.cls is not None and v.cls.name == 'VmTuple':
-        out += snapshot(it, v.attrs['list'])
+    elif isinstance(v, Inst) and v.cls is not None and v.cls.name in ('VmTuple', 'VmCont'):
+        # the object itself: any attribute added, removed or rebound by serialising is a modification of the caller's value
+        out.append((id(v), tuple(sorted((k, id(x) if not isinstance(x, K) else repr(x.v)) for k, x in v.attrs.items()))))
+        for x in v.attrs.values():
+            out += snapshot(it, x)
     elif isinstance(v, Inst) and v.cls is not None and v.cls.name in ('Slice', 'Builder'):
         bits = it.getattr(v, 'bits')
         nat_ = bits.native if isinstance(bits, Inst) else bits
@@ -138,6 +141,7 @@ def check(run):
     it0 = Interp(prog)
     names = list(mk_values(it0, prog))
     stacks = [[]] + [[n] for n in names] + [['null', 'int 1', 'cell'], ['tuple(3)', 'slice', 'cont repeat', 'int 2^63'], ['builder', 'tuple nested']]
+    history(run, prog, w)
     for stack in stacks:
         it = Interp(prog)
         vals = mk_values(it, prog)
@@ -190,3 +194,31 @@ def check(run):
         except RaiseEx as e:
             ok, why = False, f'raises {e}'
         run.check(ok, 'D4', f'VmStack round trip[{kind}]' if not ok else f'round trip {tag}', f'{tag}: {why}', prog.where(prog.method('VmStackValue', 'deserialize')))
+
+
+def history(run, prog, w):
+    """serialise, change a value the outer containers cannot see, serialise again: the second result must be that of an equal fresh stack"""
+    def build(it, extra):
+        VT = prog.cls('VmTuple')
+        inner = it.construct(VT, [ListV([K(5)] + ([K(42)] if extra else []))], {})
+        outer = it.construct(VT, [ListV([inner, K(9)])], {})
+        return ListV([outer, K(1)]), inner
+    ser = prog.method('VmStack', 'serialize')
+    for what in ('append to a nested tuple', 'replace an entry through .list'):
+        it = Interp(prog)
+        data, inner = build(it, False)
+        try:
+            it.call(Bound(prog.cls('VmStack'), ser), [data], {})
+            if what.startswith('append'):
+                cm.call_method(it, inner, 'append', K(42))
+            else:
+                inner.attrs['list'].items.append(K(42))
+            second = it.call(Bound(prog.cls('VmStack'), ser), [data], {})
+            it2 = Interp(prog)
+            fresh, _ = build(it2, True)
+            want = it2.call(Bound(prog.cls('VmStack'), ser), [fresh], {})
+            ok = bocrun.ckey(it, second) == bocrun.ckey(it2, want)
+            why = 'the second serialisation reflects the change' if ok else 'the second serialisation is stale: it differs from the cell of an equal, freshly built stack (state kept on the caller\'s objects)'
+        except RaiseEx as e:
+            ok, why = False, f'raises {e}'
+        run.check(ok, 'D3', 'VmStack.serialize[history]' if not ok else f'history: {what}', f'serialise, {what}, serialise again: {why}', w)
